@@ -238,8 +238,8 @@ impl Check for C18 {
     }
     fn lanes(&self, tier: Tier) -> Vec<(&'static str, usize, usize)> {
         match tier {
-            Tier::Quick => vec![("semantic", 30_000, 200), ("concrete", 30_000, 200)],
-            Tier::Thorough => vec![("semantic", 2_000_000, 300), ("concrete", 2_000_000, 300)],
+            Tier::Quick => vec![("semantic", 750_000, 200), ("concrete", 750_000, 200)],
+            Tier::Thorough => vec![("semantic", 15_000_000, 300), ("concrete", 15_000_000, 300)],
         }
     }
     fn run_case(&self, lane: &str, src: &mut Src, rep: &mut Report) -> Result<(), Failure> {
